@@ -11,6 +11,7 @@ from __future__ import annotations
 
 import copy
 import itertools
+import math
 import random
 
 import equinox as eqx
@@ -127,4 +128,27 @@ class Runner:
             else:
                 res.ok("C19", "eval_mean_of_episodes")
                 res.ok("C19", "eval_stops_at_first_done_or_cap")
+        # "independent episodes": with E >= 2 and start states of different return, an evaluation in which ALL episodes have the same
+        # return has probability p_same = sum_v q_v^E (q_v = share of the initial states with return v); n evaluations under different
+        # keys all being of that kind has probability p_same^n <= 1e-12 on correct code
+        init_list = [int(i) for i in plan["world"]["init"]]
+        if E >= 2 and len(init_list) >= 2:
+            shares = {}
+            for s0 in init_list:
+                shares[round(rets[s0], 6)] = shares.get(round(rets[s0], 6), 0.0) + 1.0 / len(init_list)
+            p_same = sum(q ** E for q in shares.values())
+            if len(shares) >= 2 and p_same < 1.0:
+                n = int(math.ceil(12.0 / -math.log10(p_same)))
+                if n <= 64:
+                    all_same = 0
+                    for j in range(n):
+                        got = float(self._eval(env, policy, jr.key((plan["ops"][0]["key"] + 7919 * (j + 1)) & 0x7FFFFFFF)))
+                        if any(abs(got - v) <= 1e-4 * max(1.0, abs(v)) for v in shares):
+                            all_same += 1
+                    res.events["E.independence_probe"] += 1
+                    tr.ev("independence", evaluations=n, all_episodes_equal=all_same, p_same=round(p_same, 6))
+                    if all_same == n:
+                        res.fail("C19", "eval_independent_episodes", "every_evaluation_consists_of_identical_episodes", evaluations=n, episodes=E, p_same=p_same)
+                    else:
+                        res.ok("C19", "eval_independent_episodes", n)
         return res
